@@ -39,6 +39,19 @@ def ops_for(cfg, level):
     ops.append('r')
     return ops
 
+def share_hists(cfg):
+    """histories in which inode D (and I) come to share P's attribute block (refcount 2 / 3) and then one of the three is changed: the others must keep their view"""
+    lens = LENS[cfg]
+    pre = ['s:P:0:40 s:P:5:%d' % lens[5], 's:P:0:%d' % lens[5], 's:P:0:5 s:P:2:40 s:P:6:1']
+    out = []
+    for p0 in pre:
+        for sh in ('h:D', 'h:D h:I'):
+            for x in 'PDI':
+                for op in ['s:%s:0:%d' % (x, l) for l in (0, 41, lens[5], lens[-1])] + ['s:%s:5:7' % x, 'd:%s:0' % x, 'd:%s:5' % x, 's:%s:1:60' % x]:
+                    out.append('%s %s %s' % (p0, sh, op)); out.append('%s %s %s r' % (p0, sh, op))
+                    out.append('%s %s %s d:P:0 d:D:0' % (p0, sh, op))
+    return out
+
 def run_batch(j):
     cfg, hists = j
     w = fsweep.scratch_worker()
@@ -120,8 +133,17 @@ def main(tier, only=None):
             level = nxt
             if cut: dmax = d - 1
             if not level or cut: break
+        # shared attribute blocks (128-byte inodes: every attribute lives in the external block)
+        if name in ('i128', 'ext2_128'):
+            sh = share_hists(name)
+            for batch in pmap(run_batch, [(name, sh[i:i + 60]) for i in range(0, len(sh), 60)], chunksize=1):
+                for r in batch:
+                    trans += 1
+                    if r['bad']:
+                        ck.violation('%s :: %s' % (name, r['h']), {'config': name, 'history': r['h'], 'what': r['bad'], 'errors_returned': r['errs']}); continue
+                    if r['hash'] not in seen: seen[r['hash'] + 'S'] = r['h']
         st = sorted(seen.values())
-        if quick: st = st[::2]
+        if quick: st = st[::2] + [h for h in st[1::2] if ' h:' in h]
         if len(st) > 20000: st = st[::(len(st) + 19999) // 20000]          # bounded number of full consistency checks per configuration (deterministic stride)
         cres = pmap(check_state, [(name, h) for h in st], chunksize=8)
         for cfg, h, msg in cres:
@@ -133,7 +155,7 @@ def main(tier, only=None):
         total_tr += trans; total_states += len(seen)
     ck.add(evaluations=total_tr, distinct_nontrivial=total_states, states=total_states, transitions=total_tr, traces_validated_against_impl=total_tr,
            rule='BFS over histories of xattr operations on a regular file, a directory and a small (inline-data) file: set of 7 names (user.a, a 250-byte user name, trusted, security, a POSIX ACL, user.b, user.cc) x value lengths chosen around the in-inode and '
-                'in-block capacity of the configuration and beyond one block (ea_inode), remove, two sets through one handle, filesystem reopen; inode sizes 128/256/1024, ea_inode, metadata_csum, inline_data, 1k and 4k blocks; states de-duplicated on the image hash; '
+                'plus histories in which two or three 128-byte inodes share one attribute block (refcount 2/3) before one of them is changed; in-block capacity of the configuration and beyond one block (ea_inode), remove, two sets through one handle, filesystem reopen; inode sizes 128/256/1024, ea_inode, metadata_csum, inline_data, 1k and 4k blocks; states de-duplicated on the image hash; '
                 'oracle after every operation: ext2fs_xattrs_iterate and ext2fs_xattr_get on all three inodes equal the model map; every distinct final image: e2fsck -fn = 0 and independent checker clean (entry order, hashes, refcounts, ea_inode references, bitmaps)',
            samples=['i256_eainode :: s:P:0:5000 s:P:0:68', 'i128 :: s:P:1:700 d:P:1'])
     ck.cov['configs'] = per
